@@ -329,7 +329,7 @@ func vraceRun(t *testing.T, withReload bool, churn bool) {
 				if rm.CountRegistrations(p.PhantomIp) == 0 {
 					continue
 				}
-				for _, r := range rm.registeredDecoys.getRegistrations(p.PhantomIp) {
+				for _, r := range vMapAs[*DecoyRegistration](rm.registeredDecoys.getRegistrations(p.PhantomIp)) {
 					_ = r.Covert + r.String()
 					rm.MarkActive(r)
 				}
@@ -423,7 +423,7 @@ func TestVerifSweepMarkStress(t *testing.T) {
 					for i := 0; i < nregs; i++ {
 						d := regs[(i+off)%nregs]
 						id := min.Transport{}.GetIdentifier(d)
-						if found, ok := rd.getRegistrations(d.PhantomIp)[id]; ok {
+						if found, ok := vMapAs[*DecoyRegistration](rd.getRegistrations(d.PhantomIp))[id]; ok {
 							rd.markActive(found)
 						}
 					}
